@@ -378,7 +378,7 @@ func raceScenarios() []*engine.Scenario {
 func init() {
 	hk.Register("C14", func(ctx *engine.Ctx) {
 		for _, sc := range raceScenarios() {
-			engine.ExploreS(ctx, sc, engine.SConfig{Bound: 3, Shard: ctx.Shard, NShards: ctx.NShards, Deadline: ctx.Deadline})
+			engine.ExploreS(ctx, sc, engine.SConfig{BothPolicies: true, Bound: 3, Shard: ctx.Shard, NShards: ctx.NShards, Deadline: ctx.Deadline})
 		}
 		depth := 4
 		if ctx.Tier == "thorough" {
